@@ -60,7 +60,7 @@ fn snap_one(root: &Path, p: &Path) -> J {
                 let c = std::fs::read(p).unwrap_or_default();
                 json!({"t": "f", "m": m.permissions().mode() & 0o7777, "c": hex(&c), "st": stamps})
             } else {
-                json!({"t": "other", "st": stamps})
+                json!({"t": "other", "m": m.permissions().mode() & 0o7777, "st": stamps})
             }
         }
     }
@@ -120,6 +120,11 @@ pub fn build_world(root: &Path, world: &J) {
                 let to = n["to"].as_str().unwrap();
                 let target = if to.starts_with('/') { Path::new(to).to_path_buf() } else { root.join(to) };
                 std::os::unix::fs::symlink(target, &p).unwrap();
+            }
+            "p" => {
+                // a named pipe: a path that exists and is neither file, directory nor link
+                let c = std::ffi::CString::new(p.to_string_lossy().as_bytes()).unwrap();
+                assert_eq!(unsafe { libc::mkfifo(c.as_ptr(), 0o644) }, 0);
             }
             _ => panic!("bad node"),
         }
